@@ -145,6 +145,11 @@ func (r *remoteReplicator) IsReady() bool {
 		if r.isSuspend.CompareAndSwap(false, true) {
 			r.statistics.FollowerOffline.Incr()
 			r.state.Store(&state{state: models.ReplicatorFailureState, errMsg: "follower node is offline"})
+			// the online notification is only delivered to a suspended replicator: if the follower came
+			// online before the suspend mark was set, that notification is gone, nobody will send another.
+			if _, alive := r.stateMgr.GetLiveNode(follower); alive && r.isSuspend.CompareAndSwap(true, false) {
+				return r.IsReady()
+			}
 			<-r.suspend // wait follower node online
 		}
 		return r.IsReady() // check replicator is ready now
